@@ -286,6 +286,17 @@ func c05Parse(o *wout, shard, n int, thorough bool) {
 			c05ParseOne(o, text)
 		}
 	}
+	// positions of mixed dimensionality, bbox members of every shape
+	for i, s := range append(docgen.DimDocs(), docgen.BBoxDocs()...) {
+		if i%n != shard {
+			continue
+		}
+		if i%64 == 0 {
+			o.beat()
+		}
+		o.states++
+		c05ParseOne(o, s)
+	}
 	// large documents
 	for i, s := range docgen.LargeDocs() {
 		if i%n != shard {
